@@ -48,3 +48,9 @@ package objectsets
 //@ func package-operator.run/internal/controllers/objectsets.(*GenericObjectSetController).handleDeletionAndArchival
 //@   requires [C04] !tdPending()
 //@   at FreeCacheAndRemoveFinalizer#1 assert [C04] !old(finalizers(clientObj(objectSet))["package-operator.run/cached"]) || !tdPending()
+
+//@ props C03,C15
+//@ func package-operator.run/internal/controllers/objectsets.(*objectSetRemotePhaseReconciler).Reconcile
+//@   sink Client.Create#1 requires [C15] getResult(clientObj(currentObjectSetPhase)) == 4 || lastGet() == 4
+//@   sink Client.Patch#1 requires [C09,C15] true
+//@   at return#7 assert [C03,C15] availableCond != nil && availableCond.ObservedGeneration == genOf(objstate(clientObj(currentObjectSetPhase)))
